@@ -50,6 +50,8 @@ FRAGMENTS = {
     'bta55-58': ('1bta.pdb', [('A', 55, 58)]),      # GLN PHE GLU GLN
     'villin52-55': ('integration_tests/tier-1/villin/aa.pdb', [(None, 52, 55)]),   # GLY MET THR ARG
     'bpti-ss': ('integration_tests/tier-1/bpti/aa.pdb', [(None, 4, 6), (None, 54, 56)]),   # disulfide 5-55
+    # two chains (the second range re-lettered to chain B): ALA VAL ILE ASN / THR LEU LYS LYS
+    'bta-two-chains': ('1bta.pdb', [('A', 3, 6, 'A'), ('A', 19, 22, 'B')]),
 }
 OPTIONS = {
     'default': [],
@@ -59,6 +61,8 @@ OPTIONS = {
     'nt': ['-nt'],
     'cys-none': ['-cys', 'none'],
     'martini22': ['-ff', 'martini22', '-elastic'],
+    'merge': ['-merge', 'A,B'],
+    'merge-all-elastic': ['-merge', 'all', '-elastic'],
 }
 
 
@@ -87,8 +91,13 @@ def load_atoms(name):
                     chain, resid = line[21], 1
                 else:
                     continue
-            elif ranges is not None and not any((c is None or c == chain or chain == ' ') and lo <= resid <= hi for c, lo, hi in ranges):
-                continue
+            elif ranges is not None:
+                hit = [r for r in ranges if (r[0] is None or r[0] == chain or chain == ' ') and r[1] <= resid <= r[2]]
+                if not hit:
+                    continue
+                if len(hit[0]) > 3:
+                    chain = hit[0][3]
+                    line = line[:21] + chain + line[22:]
             atoms.append({'line': line, 'name': line[12:16], 'res': (chain, resid, line[26]),
                           'xyz': (float(line[30:38]), float(line[38:46]), float(line[46:54])),
                           'element': line[76:78].strip() or line[12:16].strip().lstrip('0123456789')[:1]})
@@ -396,14 +405,15 @@ def bind_driver(name):
 
 def run(ctx):
     if ctx.quick:
-        inputs = ['tri-ala', 'ala5', 'ala1-zwitterion', 'bta15-18', 'bta38-41', 'villin52-55', 'bpti-ss']
-        optsets = {'tri-ala': ['default', 'posres', 'ss', 'nt'], 'ala5': ['elastic', 'nt'], 'ala1-zwitterion': ['default'], 'bta15-18': ['elastic', 'martini22'], 'bta38-41': ['elastic', 'cys-none'],
+        inputs = ['tri-ala', 'ala5', 'ala1-zwitterion', 'bta15-18', 'bta38-41', 'villin52-55', 'bpti-ss', 'bta-two-chains']
+        optsets = {'bta-two-chains': ['default', 'merge'], 'tri-ala': ['default', 'posres', 'ss', 'nt'], 'ala5': ['elastic', 'nt'], 'ala1-zwitterion': ['default'], 'bta15-18': ['elastic', 'martini22'], 'bta38-41': ['elastic', 'cys-none'],
                    'villin52-55': ['elastic'], 'bpti-ss': ['elastic', 'cys-none']}
         seeds = [0, 1, 2, 3 + ctx.seed % 50]
     else:
         inputs = list(FRAGMENTS)
-        optsets = {name: list(OPTIONS) for name in inputs}
+        optsets = {name: [o for o in OPTIONS if not o.startswith('merge')] for name in inputs}
         optsets['ala1-zwitterion'] = ['default', 'elastic']
+        optsets['bta-two-chains'] = ['default', 'elastic', 'merge', 'merge-all-elastic', 'nt']
         seeds = list(range(16)) + [100 + ctx.seed % 1000]
     ctx.bound = {'inputs': inputs, 'deviations': 1 if ctx.quick else '1, plus pairs (motion x transposition), (all-H renamed x transposition)',
                  'hash_seeds': seeds}
